@@ -159,6 +159,36 @@ def call_source(form, args):
     raise ValueError("unknown call form " + form)
 
 
+def callee_source(ev):
+    """how the function value f is obtained from the exposed callable h"""
+    t = js_lit(ev["thisv"])
+    if ev["mk"] == "direct":
+        return "var f = h;"
+    if ev["mk"] == "bind":
+        return "var f = h.bind(%s);" % ", ".join([t] + [js_lit(x) for x in ev["pre"]])
+    if ev["mk"] == "bindbind":
+        return "var f = h.bind(%s).bind(%s);" % (", ".join([t] + [js_lit(x) for x in ev["pre"]]),
+                                                  ", ".join([t] + [js_lit(x) for x in ev["pre2"]]))
+    raise ValueError("unknown callee form " + ev["mk"])
+
+
+def invoke_source(form, args, thisv):
+    a = [js_lit(x) for x in args]
+    if form == "call":
+        return "log(f(%s));" % ", ".join(a)
+    if form == "method":
+        return "var o = {m: f}; log(o.m(%s));" % ", ".join(a)
+    if form == "fcall":
+        return "log(f.call(%s));" % ", ".join([js_lit(thisv)] + a)
+    if form == "apply":
+        return "log(f.apply(%s, [%s]));" % (js_lit(thisv), ", ".join(a))
+    if form == "foreach":
+        return "log([%s].forEach(f));" % ", ".join(a)
+    if form == "map":
+        return "log([%s].map(f));" % ", ".join(a)
+    raise ValueError("unknown invocation form " + form)
+
+
 def run_trace(case, api):
     """case = {id, ev: [event]} -> {tid, ev: [event + observation]}"""
     ctx = api.new_context(time_limit=1000.0, raw=False)
@@ -230,6 +260,26 @@ def run_trace(case, api):
             ev["o"] = r["o"]
             ev["calls"] = calls
             ev["got"] = api.log[0][0] if (api.log and api.log[0]) else {"k": "nolog"}
+        elif op == "callseq":
+            calls = []
+            rets = [pw_to_py(x) for x in ev["rets"]]
+
+            def h(*a):
+                calls.append([wire.to_wire(x) for x in a])
+                return rets[(len(calls) - 1) % len(rets)]       # the input says what the n-th call returns
+            ctx.set("h", h)
+            del api.log[:]
+            steps = [callee_source(ev)] + [invoke_source(iv["form"], iv["args"], ev["thisv"]) for iv in ev["inv"]]
+            if not ev["split"]:
+                steps = [" ".join(steps)]
+
+            def f():
+                for src in steps:            # one context: the function value lives on between the evals
+                    ctx.eval(src)
+            r = run(f)
+            ev["o"] = r["o"]
+            ev["calls"] = calls
+            ev["gots"] = [(e[0] if e else {"k": "nolog"}) for e in api.log]
         else:
             raise ValueError("unknown event " + op)
         if ev.get("o") not in (None, "value"):
